@@ -126,6 +126,8 @@ pub enum K {
     WithMut { a: usize },
     /// `while a.load(mo) != want { yield_now() }`; result is the value read last
     Await { a: usize, mo: MO, want: u64 },
+    /// the same loop; the result tells whether it had to spin (1) or exited at once (0)
+    AwaitSpun { a: usize, mo: MO, want: u64 },
     // ---- cells
     CellRead { c: usize },
     CellWrite { c: usize },
@@ -392,7 +394,7 @@ impl Program {
 
     pub fn has_sc_access(&self) -> bool {
         self.threads.iter().flatten().any(|op| match &op.k {
-            K::Load { mo, .. } | K::Store { mo, .. } | K::Swap { mo, .. } | K::FetchAdd { mo, .. } | K::Await { mo, .. } => *mo == MO::Sc,
+            K::Load { mo, .. } | K::Store { mo, .. } | K::Swap { mo, .. } | K::FetchAdd { mo, .. } | K::Await { mo, .. } | K::AwaitSpun { mo, .. } => *mo == MO::Sc,
             K::Cas { s, f, .. } => *s == MO::Sc || *f == MO::Sc,
             _ => false,
         })
@@ -419,6 +421,7 @@ pub fn op_text(op: &Op) -> String {
         K::UnsyncLoad { a } => write!(s, "unsync_ld a{}", a),
         K::WithMut { a } => write!(s, "with_mut a{}", a),
         K::Await { a, mo, want } => write!(s, "await a{}=={}.{}", a, want, mo.short()),
+        K::AwaitSpun { a, mo, want } => write!(s, "await_spun a{}=={}.{}", a, want, mo.short()),
         K::CellRead { c } => write!(s, "rd c{}", c),
         K::CellWrite { c } => write!(s, "wr c{}", c),
         K::CellBegin { c, w } => write!(s, "{} c{}", if *w { "get_mut" } else { "get" }, c),
@@ -606,7 +609,7 @@ fn emit_thread(s: &mut String, p: &Program, t: usize, ind: &str) {
     }
     for op in &p.threads[t] {
         let mut code = rust_op(t, &op.k);
-        if o.spin_hint && matches!(op.k, K::Await { .. }) {
+        if o.spin_hint && matches!(op.k, K::Await { .. } | K::AwaitSpun { .. }) {
             code = code.replace("loom::thread::yield_now()", "loom::hint::spin_loop()");
         }
         match &op.g {
@@ -636,6 +639,7 @@ fn rust_op(t: usize, k: &K) -> String {
         K::Cas { a, exp, new, s, f } => format!("r.push(match a{}.compare_exchange({}, {}, {}, {}) {{ Ok(v) => format!(\"Ok{{}}\", v), Err(v) => format!(\"Err{{}}\", v) }});", a, exp, new, s.rust(), f.rust()),
         K::Fence { mo } => format!("fence({}); {}", mo.rust(), u),
         K::UnsyncLoad { a } => format!("let _ = unsafe {{ a{}.unsync_load() }}; {}", a, u),
+        K::AwaitSpun { a, mo, want } => format!("{{ let mut spun = 0; loop {{ let v = a{}.load({}); if v == {} {{ r.push(spun.to_string()); break; }} spun = 1; loom::thread::yield_now(); }} }}", a, mo.rust(), want),
         K::Await { a, mo, want } => format!("loop {{ let v = a{}.load({}); if v == {} {{ r.push(v.to_string()); break; }} loom::thread::yield_now(); }}", a, mo.rust(), want),
         K::CellRead { c } => format!("c{}.with(|p| unsafe {{ std::ptr::read_volatile(p) }}); {}", c, u),
         K::CellWrite { c } => format!("c{}.with_mut(|p| unsafe {{ *p += 1 }}); {}", c, u),
